@@ -841,6 +841,53 @@ func poolHygiene(c *core.Ctx) {
 		}
 		return fld.Name() + "." + f.Name(), true
 	}
+	// poolGetExpr recognises "take an object out of pool field F and assert its type": `x.F.Get().(T)`, or a
+	// call of a first-party helper handed `&x.F` whose body does the Get on that parameter (a generic
+	// getPooled[T](pool *sync.Pool) (T, bool))
+	poolGetExpr := func(e ast.Expr) (string, bool) {
+		e = astx.Unparen(e)
+		if ta, ok := e.(*ast.TypeAssertExpr); ok {
+			if call, ok := astx.Unparen(ta.X).(*ast.CallExpr); ok {
+				if op, isOp := isPoolOp(call); isOp && strings.HasSuffix(op, ".Get") {
+					return op, true
+				}
+			}
+			return "", false
+		}
+		call, ok := e.(*ast.CallExpr)
+		if !ok || len(call.Args) != 1 {
+			return "", false
+		}
+		ue, ok := astx.Unparen(call.Args[0]).(*ast.UnaryExpr)
+		if !ok || ue.Op != token.AND || !astx.TypeIs(info.TypeOf(ue.X), "sync", "Pool") {
+			return "", false
+		}
+		fld := astx.FieldOf(info, ue.X)
+		f := astx.CalleeFunc(info, call)
+		if fld == nil || f == nil {
+			return "", false
+		}
+		if f.Origin() != nil {
+			f = f.Origin()
+		}
+		hd := p.Decl(f)
+		if hd == nil || p.PkgOf(hd) != p.Connect {
+			return "", false
+		}
+		gets := 0
+		for _, inner := range astx.CallsDeep(hd.Body) {
+			if g := astx.CalleeFunc(info, inner); g != nil && g.Name() == "Get" && astx.TypeIs(recvType(g), "sync", "Pool") {
+				gets++
+			}
+			if g := astx.CalleeFunc(info, inner); g != nil && g.Name() == "Put" && astx.TypeIs(recvType(g), "sync", "Pool") {
+				return "", false
+			}
+		}
+		if gets != 1 {
+			return "", false
+		}
+		return fld.Name() + ".Get", true
+	}
 	// who may call
 	for _, fd := range p.AllFuncDecls(p.Connect) {
 		for _, call := range astx.CallsDeep(fd.Body) {
@@ -868,14 +915,8 @@ func poolHygiene(c *core.Ctx) {
 			if !ok || len(as.Rhs) != 1 {
 				return true
 			}
-			ta, ok := astx.Unparen(as.Rhs[0]).(*ast.TypeAssertExpr)
-			if !ok {
-				return true
-			}
-			if call, ok := astx.Unparen(ta.X).(*ast.CallExpr); ok {
-				if op, isOp := isPoolOp(call); isOp && strings.HasSuffix(op, ".Get") && (strings.HasPrefix(op, "decompressors.") || strings.HasPrefix(op, "compressors.")) {
-					getAssign = as
-				}
+			if op, isGet := poolGetExpr(as.Rhs[0]); isGet && (strings.HasPrefix(op, "decompressors.") || strings.HasPrefix(op, "compressors.")) {
+				getAssign = as
 			}
 			return true
 		})
